@@ -53,8 +53,10 @@ PROP = {
                              "oracle_justice_inputs": 40000, "oracle_second_level_inputs": 2000,
                              "second_level_states": 600, "store_roundtrips": 1500, "negctl_evals": 1500,
                              "noamt_cases": 50, "reconnects": 250},
-                   "thorough": {"nontrivial": 5000, "revoked_states_with_htlc_outputs": 60000,
-                                "oracle_justice_inputs": 1200000, "oracle_second_level_inputs": 60000,
-                                "negctl_evals": 50000}},
+                   "thorough": {"nontrivial": 6000, "revoked_states_with_htlc_outputs": 80000,
+                                "oracle_watcher_dispatch_evals": 100000, "oracle_recorded_outputs_evals": 170000,
+                                "oracle_justice_inputs": 1500000, "oracle_second_level_inputs": 75000,
+                                "second_level_states": 24000, "store_roundtrips": 55000,
+                                "negctl_evals": 65000, "noamt_cases": 2000, "reconnects": 10000}},
     }],
 }
